@@ -516,6 +516,14 @@ func init() {
 				}
 				cs = append(cs, c)
 			}
+			conc := 8
+			if tier == "thorough" {
+				conc = 80
+			}
+			for i := 0; i < conc; i++ {
+				cs = append(cs, CaseSpec{Kind: "concurrent", P: map[string]int64{"rounds": int64(60 + 20*(i%3))}, S: map[string]string{"mode": []string{"socket", "socket", "inmem", "socket"}[i%4]}})
+			}
+			cs = append(cs, CaseSpec{Kind: "concurrent", P: map[string]int64{"rounds": 40}, S: map[string]string{"mode": "socket", "race": "1"}})
 			for i := 0; i < 2*raceSoaks(tier); i++ {
 				c := CaseSpec{Kind: "proxy", P: map[string]int64{"rounds": 40}, S: map[string]string{"mode": []string{"socket", "inmem"}[i%2], "race": "1"}}
 				if i >= 2 {
@@ -526,8 +534,13 @@ func init() {
 			}
 			return cs
 		},
-		Workers:        8,
-		Run:            runC20,
+		Workers: 8,
+		Run: func(cs CaseSpec) *CaseResult {
+			if cs.Kind == "concurrent" {
+				return runC20Concurrent(cs)
+			}
+			return runC20(cs)
+		},
 		PerCaseTimeout: 10 * time.Minute,
 	})
 }
